@@ -84,6 +84,29 @@ pub fn key_pool(rng: &mut Rng, n: usize) -> Vec<Vec<u8>> {
             keys.push(k);
         }
     }
+    // every other pool holds a *relative* of its first key: the same bytes plus one trailing byte (NUL, LF, CR, blank,
+    // 0xff), minus the last byte, or differing in the last byte only — keys are opaque byte strings, none is another
+    if n >= 2 && rng.chance(1, 2) {
+        let k0 = keys[0].clone();
+        let rel: Vec<u8> = match rng.below(4) {
+            0 | 1 if k0.len() < 250 => {
+                let mut k = k0.clone();
+                k.push(*rng.pick(&[0x00u8, 0x0a, 0x0d, 0x20, 0xff, 0x00, 0x0a]));
+                k
+            }
+            2 if k0.len() > 1 => k0[..k0.len() - 1].to_vec(),
+            _ => {
+                let mut k = k0.clone();
+                let l = k.len() - 1;
+                k[l] ^= *rng.pick(&[0x01u8, 0x20, 0x80]);
+                k
+            }
+        };
+        if !keys.contains(&rel) {
+            let l = keys.len() - 1;
+            keys[l] = rel;
+        }
+    }
     keys
 }
 
@@ -104,6 +127,14 @@ pub fn value(rng: &mut Rng, p: &Profile, limit: u32) -> Vec<u8> {
         0 => vec![],
         1 => vec![rng.next() as u8],
         2 => vec![0xff, 0xfe, 0x80, 0x00],
+        4 => {
+            // valid UTF-8 text with one multi-byte character straddling a 'round' byte offset (16, 32, 64, 128)
+            let at = *rng.pick(&[16usize, 32, 32, 64, 128]) - rng.range(1, 3) as usize;
+            let mut v = vec![b'a' + rng.below(26) as u8; at];
+            v.extend_from_slice(rng.pick(&["é", "€", "😀", "ß"]).as_bytes());
+            v.extend(std::iter::repeat(b'z').take(rng.range(0, 6) as usize));
+            v
+        }
         3 => {
             // large relative to the (small) configured limit
             // (under the large limits only one time in eight: the dumps behind every request carry these values)
